@@ -951,6 +951,24 @@ func randomOps(r *rand.Rand, u [][]byte) []op {
 	return ops
 }
 
+// probeFindLive documents a corner that is left out of the verdict (DESIGN 2.2, drift): Trie.Find is judged on
+// store-rooted tries over a flushed store, which is how stateroot.Module uses it. Called on a live trie with
+// unflushed changes it answers correctly, but the Billet traversal it is built on replaces the visited in-memory
+// nodes by "collapsed" hash nodes that were never written to the store.
+func probeFindLive(res *vh.Result) {
+	defer func() { _ = recover() }()
+	tr := mpt.NewTrie(nil, mpt.ModeAll, storage.NewMemCachedStore(storage.NewMemoryStore()))
+	_ = tr.Put([]byte{0xAA, 0x01}, []byte("v"))
+	_ = tr.Put([]byte{0xAA, 0x02}, []byte("w"))
+	r, err := tr.Find([]byte{0xAA}, nil, 10)
+	_, gerr := tr.Get([]byte{0xAA, 0x01})
+	if err == nil && len(r) == 2 && gerr != nil {
+		res.AddDrift(map[string]any{"what": "Trie.Find on a live trie with unflushed changes answers correctly but leaves collapsed hash " +
+			"nodes that are not in the store: the next Get/Put on the same Trie fails (" + gerr.Error() + "); not judged, Find is " +
+			"exercised on flushed store-rooted tries only", "repro": "Put(aa01,v) Put(aa02,w) Find(aa,nil,10) Get(aa01)"})
+	}
+}
+
 // ---------------------------------------------------------------- entry point
 
 var modes = []mpt.TrieMode{mpt.ModeAll, mpt.ModeLatest, mpt.ModeGC}
@@ -986,6 +1004,7 @@ func TestDriver(t *testing.T) {
 		runHistory(res, tr, fmt.Sprintf("rnd-%d-%s", i, modeName(m)), m, u, ops, stream)
 	}
 	res.Inc("random_histories", nr)
+	probeFindLive(res)
 	tr.Close()
 	res.Inc("trace_events", tr.N)
 	sort.Strings(res.Distinct)
